@@ -681,3 +681,9 @@ func (a *fakeAPI) String() string {
 }
 
 func watchEventNil() watch.Event { return watch.Event{Type: watch.Modified, Object: nil} }
+
+func (a *fakeAPI) watchCount() int {
+	a.mu.Lock()
+	defer a.mu.Unlock()
+	return len(a.watchCalls)
+}
